@@ -3,7 +3,8 @@
    check.py --replay <replay.json>            re-evaluate the rule instance named in a replay file
 
 Exit 0: every rule instance holds (or is a listed known finding); exit 1: a VIOLATION line was
-printed; exit 2: the checker could not run / could not decide (CHECKER-ERROR), never a pass.
+printed - also when a rule could not be evaluated on this tree (CHECKER-ERROR + VIOLATION: fail closed); exit 2: the tree
+could not be analysed at all (it does not compile, the extractor is missing), never a pass.
 Everything is decided from facts extracted from /repo's current working tree; no code of the
 crate is executed."""
 import importlib
@@ -18,6 +19,29 @@ from framework import Context, Report, finish, prune_cache  # noqa: E402
 from mirlib import CheckerError  # noqa: E402
 
 
+def undecided(pid, tier, msg):
+    """A rule that cannot follow the code of the current tree (an anchor is gone, a construct is outside the subset the shape
+    analysis interprets, an instance count fell below its floor) has NOT established the property: the check fails closed.  The
+    verdict is a VIOLATION whose text says that it is the absence of a proof, not a counterexample; only a tree that cannot be
+    analysed at all (it does not compile, the extractor is missing) stays a plain checker error (exit 2)."""
+    import hashlib
+    import re
+    from framework import REPL
+    if any(x in msg for x in ('cargo check failed', 'driver not built', 'extraction', 'no lib facts', 'no bin facts', 'nlsyn')):
+        return 2
+    key = 'UNDECIDED|' + re.sub(r'(line |:)\d+', r'\1N', msg)[:300]
+    os.makedirs(REPL, exist_ok=True)
+    rp = os.path.join(REPL, '%s-%s.json' % (pid, hashlib.sha256(key.encode()).hexdigest()[:12]))
+    json.dump({'property': pid, 'key': key, 'rule': 'UNDECIDED', 'rule_text': 'every rule of the property can be evaluated on the current tree',
+               'fn': None, 'construct': 'the rules of %s' % pid, 'loc': None, 'detail': None, 'tier': tier,
+               'text': 'not established: ' + msg + ' - the code is of a shape the rules do not cover, so nothing shows that the property still holds'},
+              open(rp, 'w'), indent=1)
+    print('--- violation: the property is not established on this tree (fail closed)')
+    print('    %s' % msg)
+    print('VIOLATION property=%s replay=%s' % (pid, rp))
+    return 1
+
+
 def run_one(pid, tier, ctx, replay_key=None):
     mod = importlib.import_module('rules.' + pid.lower())
     rep = Report(pid, tier)
@@ -29,7 +53,7 @@ def run_one(pid, tier, ctx, replay_key=None):
         code = finish(rep, ctx, mod.META)
     except CheckerError as e:
         print('CHECKER-ERROR property=%s %s' % (pid, e))
-        return 2
+        return undecided(pid, tier, str(e))
     if replay_key is not None:
         hit = [o for o in rep.obs if o['key'] == replay_key]
         print('--- replay of %s' % replay_key)
@@ -69,10 +93,10 @@ def main():
     for pid in pids:
         try:
             code = run_one(pid, tier, ctx)
-        except Exception:
+        except Exception as e:
             traceback.print_exc()
             print('CHECKER-ERROR property=%s internal error' % pid)
-            code = 2
+            code = undecided(pid, tier, 'internal error of a rule (%s: %s)' % (type(e).__name__, str(e)[:120]))
         worst = max(worst, code)
     prune_cache()
     sys.exit(worst)
